@@ -25,6 +25,8 @@ RULE = ("Hypothesis-generated actor scripts over one Event or one Condition (acq
 ASSUMPTIONS = [
     "queue automaton driven by the observed history; where a cancellation overlaps a notification by <= 2 cycles the "
     "recipient of the passed-on notification may be any waiter queued in that window (tolerance credits), elsewhere exact",
+    "credits are created only for as many cancelled waiters as statistics().tasks_waiting shows can still be queued; "
+    "when a floating and a direct notification are both outstanding either attribution to the eligible waiters is accepted",
     "an unmarked waiter leaves the model queue when its cancellation is requested",
     "at most one native cancel per operation",
 ]
